@@ -1517,4 +1517,442 @@ theorem foldUn_sound (K : Col → KOut Col) (fa : KOut (Option KVal)) (ca c : Co
   | err => simp at hf
   | panic => simp at hf
 
+/-! ### `fold_eq_eval` under the forced hypothesis -/
+
+theorem binaryOp_invalid {α β γ} (f : α → β → KOut γ) (a : Arr α) (b : Arr β) (c : Arr γ)
+    (h : ∀ p ∈ List.zip a b, (p.1.valid && p.2.valid) = false) (hk : binaryOp f a b = .ok c) :
+    ∀ s ∈ c, s.valid = false := by
+  have hl := (binaryOp_length f a b c hk).2
+  rw [binaryOp_eq_zipSlotM f a b hl] at hk
+  apply zipSlotM_forall _ (fun s => s.valid = false) a b c _ hk
+  intro p hp r hr
+  simp only [binSlot] at hr
+  cases hf : f p.1.raw p.2.raw <;> simp [hf, KOut.map] at hr
+  subst hr
+  exact h p hp
+
+/-- value of a one-row column all of whose slots are invalid -/
+theorem get0_invalid_int (w : IW) (c : Arr Int) (h : ∀ s ∈ c, s.valid = false) :
+    (Col.int w c).get0 = .null := by
+  cases c with
+  | nil => rfl
+  | cons s ss => simp [Col.get0, h s (by simp)]
+
+theorem get0_invalid_bool (c : Arr Bool) (h : ∀ s ∈ c, s.valid = false) :
+    (Col.bool c).get0 = .null := by
+  cases c with
+  | nil => rfl
+  | cons s ss => simp [Col.get0, h s (by simp)]
+
+theorem get0_invalid_str (c : Arr String) (h : ∀ s ∈ c, s.valid = false) :
+    (Col.str c).get0 = .null := by
+  cases c with
+  | nil => rfl
+  | cons s ss => simp [Col.get0, h s (by simp)]
+
+theorem one_row_null_int (w : IW) (a : Arr Int) (hl : (Col.int w a).len = 1)
+    (hg : (Col.int w a).get0 = .null) : ∀ s ∈ a, s.valid = false := by
+  match a, hl with
+  | [s], _ =>
+    intro t ht
+    simp at ht; subst ht
+    rcases t with ⟨v, r⟩
+    cases v <;> simp_all [Col.get0]
+
+theorem arith_strict (op : ArithOp) (ca cb c : Col) (la : ca.len = 1) (lb : cb.len = 1)
+    (hn : ca.get0 = .null ∨ cb.get0 = .null) (hk : Col.arith op ca cb = .ok c) :
+    c.get0 = .null := by
+  cases ca <;> cases cb <;> simp [Col.arith] at hk
+  rename_i wa a wb b
+  cases hr : arithK op (wa.max wb) a b <;> simp [hr, KOut.map] at hk
+  subst hk
+  apply get0_invalid_int
+  unfold arithK at hr
+  apply binaryOp_invalid _ _ _ _ _ hr
+  intro p hp
+  match a, b, la, lb with
+  | [s], [t], _, _ =>
+    rcases hn with hn | hn
+    · have := one_row_null_int wa [s] rfl hn s (by simp)
+      cases hd : (op == ArithOp.div) <;> simp [hd, safenDividend] at hp <;> (subst hp; simp [this])
+    · have := one_row_null_int wb [t] rfl hn t (by simp)
+      cases hd : (op == ArithOp.div) <;> simp [hd, safenDividend] at hp <;> (subst hp; simp [this])
+
+
+theorem one_row_null_bool (a : Arr Bool) (hl : (Col.bool a).len = 1)
+    (hg : (Col.bool a).get0 = .null) : ∀ s ∈ a, s.valid = false := by
+  match a, hl with
+  | [s], _ =>
+    intro t ht
+    simp at ht; subst ht
+    rcases t with ⟨v, r⟩
+    cases v <;> simp_all [Col.get0]
+
+theorem one_row_null_str (a : Arr String) (hl : (Col.str a).len = 1)
+    (hg : (Col.str a).get0 = .null) : ∀ s ∈ a, s.valid = false := by
+  match a, hl with
+  | [s], _ =>
+    intro t ht
+    simp at ht; subst ht
+    rcases t with ⟨v, r⟩
+    cases v <;> simp_all [Col.get0]
+
+theorem cmpK_invalid {α} (f : α → α → Bool) (a b : Arr α) (c : Arr Bool)
+    (h : (∀ s ∈ a, s.valid = false) ∨ (∀ s ∈ b, s.valid = false)) (hk : cmpK f a b = .ok c) :
+    ∀ s ∈ c, s.valid = false := by
+  unfold cmpK at hk
+  cases hb : binaryOp (fun x y => KOut.ok (f x y)) a b <;> simp [hb, KOut.map] at hk
+  subst hk
+  rename_i r
+  have := binaryOp_invalid _ a b r (by
+    intro p hp
+    rcases h with h | h
+    · simp [h p.1 (List.of_mem_zip hp).1]
+    · simp [h p.2 (List.of_mem_zip hp).2]) hb
+  intro s hs
+  simp only [clearNull, List.mem_map] at hs
+  obtain ⟨t, ht, rfl⟩ := hs
+  exact this t ht
+
+theorem cmp_strict (op : CmpOp) (ca cb c : Col) (la : ca.len = 1) (lb : cb.len = 1)
+    (hn : ca.get0 = .null ∨ cb.get0 = .null) (hk : Col.cmp op ca cb = .ok c) :
+    c.get0 = .null := by
+  cases ca <;> cases cb <;> simp [Col.cmp] at hk
+  · rename_i a b
+    cases hr : cmpK (fun x y => op.onOrd (boolOrd x y)) a b <;> simp [hr, KOut.map] at hk
+    subst hk
+    apply get0_invalid_bool
+    apply cmpK_invalid _ a b _ _ hr
+    rcases hn with hn | hn
+    · exact Or.inl (one_row_null_bool a la hn)
+    · exact Or.inr (one_row_null_bool b lb hn)
+  · rename_i wa a wb b
+    cases hr : cmpK op.onInt a b <;> simp [hr, KOut.map] at hk
+    subst hk
+    apply get0_invalid_bool
+    apply cmpK_invalid _ a b _ _ hr
+    rcases hn with hn | hn
+    · exact Or.inl (one_row_null_int wa a la hn)
+    · exact Or.inr (one_row_null_int wb b lb hn)
+  · rename_i a b
+    cases hr : cmpK (fun x y => op.onOrd (strOrd x y)) a b <;> simp [hr, KOut.map] at hk
+    subst hk
+    apply get0_invalid_bool
+    apply cmpK_invalid _ a b _ _ hr
+    rcases hn with hn | hn
+    · exact Or.inl (one_row_null_str a la hn)
+    · exact Or.inr (one_row_null_str b lb hn)
+
+theorem concat_strict (ca cb c : Col) (la : ca.len = 1) (lb : cb.len = 1)
+    (hn : ca.get0 = .null ∨ cb.get0 = .null) (hk : Col.concat ca cb = .ok c) :
+    c.get0 = .null := by
+  cases ca <;> cases cb <;> simp only [Col.concat] at hk <;> try (cases hk)
+  rename_i a b
+  cases hr : binaryOp (fun x y => KOut.ok (x ++ y)) a b <;> simp only [hr] at hk <;> cases hk
+  apply get0_invalid_str
+  apply binaryOp_invalid _ a b _ _ hr
+  intro p hp
+  rcases hn with hn | hn
+  · simp [one_row_null_str a la hn p.1 (List.of_mem_zip hp).1]
+  · simp [one_row_null_str b lb hn p.2 (List.of_mem_zip hp).2]
+
+theorem not_strict (ca c : Col) (la : ca.len = 1) (hn : ca.get0 = .null)
+    (hk : Col.not ca = .ok c) : c.get0 = .null := by
+  cases ca <;> simp [Col.not] at hk
+  rename_i a
+  subst hk
+  apply get0_invalid_bool
+  intro s hs
+  simp only [notK, clearNull, List.mem_map] at hs
+  obtain ⟨t, ⟨u, hu, rfl⟩, rfl⟩ := hs
+  exact one_row_null_bool a la hn u hu
+
+theorem neg_strict (ca c : Col) (la : ca.len = 1) (hn : ca.get0 = .null)
+    (hk : Col.neg ca = .ok c) : c.get0 = .null := by
+  cases ca with
+  | int w a =>
+    have hinv := one_row_null_int w a la hn
+    match a, la with
+    | [s], _ =>
+      have hs := hinv s (by simp)
+      cases w <;> simp [Col.neg, unaryOp, raws, valids, mapRawM] at hk
+      · cases hf : negW .w32 s.raw <;> simp [hf, fromData] at hk
+        subst hk; simp [Col.get0, hs]
+      · cases hf : negW .w64 s.raw <;> simp [hf, fromData] at hk
+        subst hk; simp [Col.get0, hs]
+  | null k => simp [Col.neg] at hk
+  | bool x => simp [Col.neg] at hk
+  | str x => simp [Col.neg] at hk
+
+
+/-- `fold_eq_eval` under the forced hypothesis (no AND/OR is folded through the NULL short-cut):
+whenever `eval_constant` folds an expression to `v` and the evaluator computes a value for it,
+that value is `v`. -/
+theorem fold_eq_eval_partial (e : KExpr) : ∀ (v : KVal) (c : Col), foldTags e = [] →
+    foldC e = .ok (some v) → (evalK [] 1 e).1 = .ok c → c.get0 = v := by
+  have wf : ChunkWF [] 1 := fun c hc => by cases hc
+  induction e with
+  | col i => intro v c _ hf _; simp [foldC] at hf
+  | const k =>
+    intro v c _ hf he
+    simp only [foldC] at hf
+    simp only [evalK] at he
+    cases hf; cases he
+    cases k <;> simp [constCol, Col.get0]
+  | arith op a b iha ihb =>
+    intro v c ht hf he
+    simp only [foldTags, List.append_eq_nil_iff] at ht
+    simp only [foldC] at hf
+    simp only [evalK] at he
+    rcases ha : evalK [] 1 a with ⟨ra, ta⟩
+    try rw [ha] at he
+    cases ra with
+    | ok ca =>
+      rcases hb : evalK [] 1 b with ⟨rb, tb⟩
+      try rw [hb] at he
+      cases rb with
+      | ok cb =>
+        simp only at he
+        have la := evalK_len [] 1 wf a ca (by rw [ha])
+        have lb := evalK_len [] 1 wf b cb (by rw [hb])
+        exact foldBin_sound (Col.arith op) (foldC a) (foldC b) ca cb c v
+          (fun va h => iha va ca ht.1 h (by rw [ha])) (fun vb h => ihb vb cb ht.2 h (by rw [hb])) la lb
+          (fun va vb h1 h2 hn => arith_strict op ca cb c la lb
+            (((Bool.or_eq_true _ _).mp hn).imp
+              (fun h => by rw [iha va ca ht.1 h1 (by rw [ha]), isNull_eq va h])
+              (fun h => by rw [ihb vb cb ht.2 h2 (by rw [hb]), isNull_eq vb h])) he) hf he
+      | err => simp at he
+      | panic => simp at he
+    | err => simp at he
+    | panic => simp at he
+  | cmp op a b iha ihb =>
+    intro v c ht hf he
+    simp only [foldTags, List.append_eq_nil_iff] at ht
+    simp only [foldC] at hf
+    simp only [evalK] at he
+    rcases ha : evalK [] 1 a with ⟨ra, ta⟩
+    try rw [ha] at he
+    cases ra with
+    | ok ca =>
+      rcases hb : evalK [] 1 b with ⟨rb, tb⟩
+      try rw [hb] at he
+      cases rb with
+      | ok cb =>
+        simp only at he
+        have la := evalK_len [] 1 wf a ca (by rw [ha])
+        have lb := evalK_len [] 1 wf b cb (by rw [hb])
+        exact foldBin_sound (Col.cmp op) (foldC a) (foldC b) ca cb c v
+          (fun va h => iha va ca ht.1 h (by rw [ha])) (fun vb h => ihb vb cb ht.2 h (by rw [hb])) la lb
+          (fun va vb h1 h2 hn => cmp_strict op ca cb c la lb
+            (((Bool.or_eq_true _ _).mp hn).imp
+              (fun h => by rw [iha va ca ht.1 h1 (by rw [ha]), isNull_eq va h])
+              (fun h => by rw [ihb vb cb ht.2 h2 (by rw [hb]), isNull_eq vb h])) he) hf he
+      | err => simp at he
+      | panic => simp at he
+    | err => simp at he
+    | panic => simp at he
+  | and a b iha ihb =>
+    intro v c ht hf he
+    simp only [foldTags, List.append_eq_nil_iff] at ht
+    simp only [foldC] at hf
+    simp only [evalK] at he
+    rcases ha : evalK [] 1 a with ⟨ra, ta⟩
+    try rw [ha] at he
+    cases ra with
+    | ok ca =>
+      rcases hb : evalK [] 1 b with ⟨rb, tb⟩
+      try rw [hb] at he
+      cases rb with
+      | ok cb =>
+        simp only at he
+        have la := evalK_len [] 1 wf a ca (by rw [ha])
+        have lb := evalK_len [] 1 wf b cb (by rw [hb])
+        exact foldBin_sound (Col.and) (foldC a) (foldC b) ca cb c v
+          (fun va h => iha va ca ht.1.1 h (by rw [ha])) (fun vb h => ihb vb cb ht.1.2 h (by rw [hb])) la lb
+          (fun va vb h1 h2 hn => by
+            have htag := ht.2
+            rw [h1, h2] at htag
+            simp [hn] at htag) hf he
+      | err => simp at he
+      | panic => simp at he
+    | err => simp at he
+    | panic => simp at he
+  | or a b iha ihb =>
+    intro v c ht hf he
+    simp only [foldTags, List.append_eq_nil_iff] at ht
+    simp only [foldC] at hf
+    simp only [evalK] at he
+    rcases ha : evalK [] 1 a with ⟨ra, ta⟩
+    try rw [ha] at he
+    cases ra with
+    | ok ca =>
+      rcases hb : evalK [] 1 b with ⟨rb, tb⟩
+      try rw [hb] at he
+      cases rb with
+      | ok cb =>
+        simp only at he
+        have la := evalK_len [] 1 wf a ca (by rw [ha])
+        have lb := evalK_len [] 1 wf b cb (by rw [hb])
+        exact foldBin_sound (Col.or) (foldC a) (foldC b) ca cb c v
+          (fun va h => iha va ca ht.1.1 h (by rw [ha])) (fun vb h => ihb vb cb ht.1.2 h (by rw [hb])) la lb
+          (fun va vb h1 h2 hn => by
+            have htag := ht.2
+            rw [h1, h2] at htag
+            simp [hn] at htag) hf he
+      | err => simp at he
+      | panic => simp at he
+    | err => simp at he
+    | panic => simp at he
+  | concat a b iha ihb =>
+    intro v c ht hf he
+    simp only [foldTags, List.append_eq_nil_iff] at ht
+    simp only [foldC] at hf
+    simp only [evalK] at he
+    rcases ha : evalK [] 1 a with ⟨ra, ta⟩
+    try rw [ha] at he
+    cases ra with
+    | ok ca =>
+      rcases hb : evalK [] 1 b with ⟨rb, tb⟩
+      try rw [hb] at he
+      cases rb with
+      | ok cb =>
+        simp only at he
+        have la := evalK_len [] 1 wf a ca (by rw [ha])
+        have lb := evalK_len [] 1 wf b cb (by rw [hb])
+        exact foldBin_sound (Col.concat) (foldC a) (foldC b) ca cb c v
+          (fun va h => iha va ca ht.1 h (by rw [ha])) (fun vb h => ihb vb cb ht.2 h (by rw [hb])) la lb
+          (fun va vb h1 h2 hn => concat_strict ca cb c la lb
+            (((Bool.or_eq_true _ _).mp hn).imp
+              (fun h => by rw [iha va ca ht.1 h1 (by rw [ha]), isNull_eq va h])
+              (fun h => by rw [ihb vb cb ht.2 h2 (by rw [hb]), isNull_eq vb h])) he) hf he
+      | err => simp at he
+      | panic => simp at he
+    | err => simp at he
+    | panic => simp at he
+  | neg a iha =>
+    intro v c ht hf he
+    simp only [foldTags] at ht
+    simp only [foldC] at hf
+    simp only [evalK] at he
+    rcases ha : evalK [] 1 a with ⟨ra, ta⟩
+    try rw [ha] at he
+    cases ra with
+    | ok ca =>
+      simp only at he
+      have la := evalK_len [] 1 wf a ca (by rw [ha])
+      exact foldUn_sound (Col.neg) (foldC a) ca c v (fun va h => iha va ca ht h (by rw [ha])) la
+        (fun hn => neg_strict ca c la hn he) hf he
+    | err => simp at he
+    | panic => simp at he
+  | not a iha =>
+    intro v c ht hf he
+    simp only [foldTags] at ht
+    simp only [foldC] at hf
+    simp only [evalK] at he
+    rcases ha : evalK [] 1 a with ⟨ra, ta⟩
+    try rw [ha] at he
+    cases ra with
+    | ok ca =>
+      simp only at he
+      have la := evalK_len [] 1 wf a ca (by rw [ha])
+      exact foldUn_sound (Col.not) (foldC a) ca c v (fun va h => iha va ca ht h (by rw [ha])) la
+        (fun hn => not_strict ca c la hn he) hf he
+    | err => simp at he
+    | panic => simp at he
+  | isnull a iha =>
+    intro v c ht hf he
+    simp only [foldTags] at ht
+    simp only [foldC] at hf
+    simp only [evalK] at he
+    rcases ha : evalK [] 1 a with ⟨ra, ta⟩
+    try rw [ha] at he
+    cases ra with
+    | ok ca =>
+      simp only at he
+      cases he
+      have la := evalK_len [] 1 wf a ca (by rw [ha])
+      cases hfa : foldC a with
+      | ok oa =>
+        cases oa with
+        | some va =>
+          rw [hfa] at hf
+          simp only at hf
+          cases hf
+          have hg := iha va ca ht hfa (by rw [ha])
+          subst hg
+          cases ca with
+          | null k => match k, la with | 1, _ => rfl
+          | bool x => match x, la with | [s], _ => rcases s with ⟨sv, sr⟩; cases sv <;> rfl
+          | int w x => match x, la with | [s], _ => rcases s with ⟨sv, sr⟩; cases sv <;> rfl
+          | str x => match x, la with | [s], _ => rcases s with ⟨sv, sr⟩; cases sv <;> rfl
+        | none => rw [hfa] at hf; cases hf
+      | err => rw [hfa] at hf; cases hf
+      | panic => rw [hfa] at hf; cases hf
+    | err => simp at he
+    | panic => simp at he
+  | cast t a iha =>
+    intro v c ht hf he
+    simp only [foldTags] at ht
+    simp only [foldC] at hf
+    simp only [evalK] at he
+    rcases ha : evalK [] 1 a with ⟨ra, ta⟩
+    try rw [ha] at he
+    cases ra with
+    | ok ca =>
+      simp only at he
+      have la := evalK_len [] 1 wf a ca (by rw [ha])
+      cases hfa : foldC a with
+      | ok oa =>
+        cases oa with
+        | some va =>
+          rw [hfa] at hf
+          simp only at hf
+          have hg := iha va ca ht hfa (by rw [ha])
+          by_cases hn : va.isNull = true
+          · have hv := isNull_eq va hn
+            subst hv
+            by_cases htn : t = .null
+            · subst htn
+              -- cast of a NULL-valued one-row column to type NULL
+              cases ca with
+              | null k =>
+                simp [Col.cast, nullCol] at he; subst he
+                simp [KVal.isNull, Col.cast, constCol, nullCol, Col.get0] at hf
+                exact hf.symm ▸ rfl
+              | bool x => simp [Col.cast] at he
+              | int w x => simp [Col.cast] at he
+              | str x => simp [Col.cast] at he
+            · simp [KVal.isNull, htn] at hf
+          · have hn' : va.isNull = false := by simpa using hn
+            simp only [hn', Bool.false_and, Bool.false_eq_true, if_false] at hf
+            have e1 := const_of_get0 ca va la hg hn'
+            rw [← e1, he] at hf
+            simp only at hf
+            cases hf; rfl
+        | none => rw [hfa] at hf; cases hf
+      | err => rw [hfa] at hf; cases hf
+      | panic => rw [hfa] at hf; cases hf
+    | err => simp at he
+    | panic => simp at he
+  | ite cnd t e ihc iht ihe =>
+    intro v c _ hf _
+    simp only [foldC, foldNone] at hf
+    split at hf <;> cases hf
+  | like a p iha =>
+    intro v c _ hf _
+    simp only [foldC, foldNone] at hf
+    split at hf <;> cases hf
+  | substring s b c0 ihs ihb ihc =>
+    intro v c _ hf _
+    simp only [foldC, foldNone] at hf
+    split at hf <;> cases hf
+  | replace a f t iha =>
+    intro v c _ hf _
+    simp only [foldC, foldNone] at hf
+    split at hf <;> cases hf
+  | repeat_ s k ihs ihk =>
+    intro v c _ hf _
+    simp only [foldC, foldNone] at hf
+    split at hf <;> cases hf
+
 end RlModel
